@@ -55,7 +55,7 @@ theorem fclose_emit (v : Pairing) (ca cb : Cfg) (f f' : Fwd) (hi : FCloseInv cb 
     obtain ⟨x, _, hd, _⟩ := emit_spec cb f.b b' hb
     split at h
     · obtain rfl := Option.some.inj h
-      exact fclose_weak cb f _ hi rfl rfl hd rfl rfl rfl rfl h8
+      exact fclose_weak cb f _ hi rfl rfl hd rfl rfl rfl rfl h8 (fun hf => hf)
     · unfold afterOp at h
       split at h
       all_goals first
@@ -177,7 +177,7 @@ theorem fclose_misc (v : Pairing) (ca cb : Cfg) (f f' : Fwd) (hi : FCloseInv cb 
       | some a' =>
         simp only [hs, Option.map_some, Option.some.injEq] at h; subst h
         obtain ⟨_, _, h3, h4⟩ := dropReceiver_spec ca f.a a' hs
-        exact fclose_weak cb f _ hi rfl h3 rfl h4 rfl rfl rfl (fun _ hg => hg)
+        exact fclose_weak cb f _ hi rfl h3 rfl h4 rfl rfl rfl (fun _ hg => hg) (finished_stable ca f.a a' _ hs)
     · simp at h
   · intro h
     simp only [fstep] at h
@@ -209,7 +209,7 @@ theorem fclose_misc (v : Pairing) (ca cb : Cfg) (f f' : Fwd) (hi : FCloseInv cb 
       | none => simp [ht] at h
       | some t' =>
         simp only [ht, Option.map_some, Option.some.injEq] at h; subst h
-        exact fclose_weak cb f _ hi rfl rfl rfl rfl rfl rfl rfl (fun _ hg => hg)
+        exact fclose_weak cb f _ hi rfl rfl rfl rfl rfl rfl rfl (fun _ hg => hg) (fun hf => hf)
     · simp at h
   · intro j ok h
     simp only [fstep] at h
@@ -219,7 +219,7 @@ theorem fclose_misc (v : Pairing) (ca cb : Cfg) (f f' : Fwd) (hi : FCloseInv cb 
       | none => simp [ht] at h
       | some t' =>
         simp only [ht, Option.map_some, Option.some.injEq] at h; subst h
-        exact fclose_weak cb f _ hi rfl rfl rfl rfl rfl rfl rfl (fun _ hg => hg)
+        exact fclose_weak cb f _ hi rfl rfl rfl rfl rfl rfl rfl (fun _ hg => hg) (fun hf => hf)
     · simp at h
 
 theorem fclose_step (v : Pairing) (ca cb : Cfg) (f f' : Fwd) (l : FLabel) (hi : FCloseInv cb f)
